@@ -374,7 +374,9 @@ def one_case(sh, fa, rng, case, scratch, tag, full_matrix=False):
     metas = [None, {}, {"k": "v"}, {"ключ": "значение ✓", "a.b": ""},
              # a dict carried over from another file (reader.metadata) holds the reserved keys
              {"avro.codec": rng.choice(CODECS), "origin": "copied"},
-             {"avro.schema": '"int"', "avro.codec": "null", "x": "y"}]
+             {"avro.schema": '"int"', "avro.codec": "null", "x": "y"},
+             # keys next to the reserved "avro." namespace but outside it
+             {"avro_job": "1", "avrotool": "x", "avrodoc.version": "2", "Avro.note": "", "avro": "bare", "avr": "o."}]
     if full_matrix:
         combos = [(c, o, i) for c in CODECS for o, i in (("bytesio", "bytesio"), ("file", "file"), ("writeonly", "readonly"))]
     else:
